@@ -13,10 +13,10 @@ import os
 from lib import vf, expand
 
 MARK = {"doc": "/// MARKER-DOC", "lint": "#[allow(unused_variables)]", "cfgon": "#[cfg(all())]", "cfgoff": "#[cfg(any())]",
-        "tool": "#[rustfmt::skip]", "inert": "#[must_use]", "cfgattr": "#[cfg_attr(all(), allow(unused_variables))]"}
+        "tool": "#[rustfmt::skip]", "inert": "#[must_use]", "cfgattr": "#[cfg_attr(all(), allow(unused_variables))]", "cfgonoff": "#[cfg(all())]\n    #[cfg(any())]"}
 TEXT = {"doc": '# [ doc = " MARKER-DOC" ]', "lint": "# [ allow ( unused_variables ) ]", "cfgon": "# [ cfg ( all ( ) ) ]",
         "cfgoff": "# [ cfg ( any ( ) ) ]", "tool": "# [ rustfmt :: skip ]", "inert": "# [ must_use ]",
-        "cfgattr": "# [ cfg_attr ( all ( ) , allow ( unused_variables ) ) ]"}
+        "cfgattr": "# [ cfg_attr ( all ( ) , allow ( unused_variables ) ) ]", "cfgonoff": "# [ cfg ( any ( ) ) ]"}
 
 
 def render(i):
@@ -128,7 +128,7 @@ def main():
     ev = {e["case"]: e for e in events}
     chk.cov["evaluations"] = len(events)
     chk.cov["distinct_nontrivial"] = sum(1 for e in events if e["obs"]["expanded"])
-    chk.cov["rule"] = ("attribute kind {doc, lint, enabled cfg, disabled cfg, tool attribute, inert built-in, cfg_attr} x placement {fn, parameter (identifier, `_` and destructuring patterns), module fn, "
+    chk.cov["rule"] = ("attribute kind {doc, lint, enabled cfg, disabled cfg, tool attribute, inert built-in, cfg_attr, two stacked cfgs (enabled then disabled)} x placement {fn, parameter (identifier, `_` and destructuring patterns), module fn, "
                        "impl-block fn, trait method} x sync/async x deps/no_deps (where the combination is legal Rust); all replayed")
     chk.cov["exhaustive"] = True
     vf.report_drift(chk, drift, lambda d: f"in={byid[d['case']]['in']} obs={ev[d['case']]['obs']}")
